@@ -270,11 +270,19 @@ def _protocol(ctx, g, x, root, fl, view):
         # success -> Ok(value read)
         oks_ = [(nid, si, rv) for (nid, si, rv) in x.aggs(r'result::Result::Ok$')
                 if any(r_ in x.calls_in(x.agg_expr(nid, si)) for r_ in Rn) or view]
+    # the places where the value read from the slot is wrapped for the caller (Ok(v), Some(v), Ready(..)): every
+    # aggregate that has the read's result as a direct operand, whatever it is called
     oknodes = []
-    for (nid, si, rv) in x.aggs(r'result::Result::Ok$'):
+    for (nid, si, rv) in x.aggs(r''):
         e = x.agg_expr(nid, si)
-        cn = x.calls_in(e)
-        if cn & Rn:
+        direct = False
+        for o_ in e[4]:
+            s_ = g.strip(o_)
+            for alt in (s_[1] if s_[0] == 'phi' else (s_,)):
+                alt = g.strip(alt)
+                if alt[0] == 'call' and x.rep(alt[1]) in Rn:
+                    direct = True
+        if direct:
             oknodes.append(nid)
     if not view:
         succ_all = set()
